@@ -3,11 +3,12 @@
 CONSTANTS
   Batches <- HiddenBatches
   Observers = {"trace"}
-  M = 2
-  Per = 1
+  M = 4
+  Per = 2
   Faults = {}
   MaxFaults = 0
   Pickle = "ascoded"
+  Variant = "ascoded"
 SPECIFICATION Spec
 INVARIANT TypeOK
 INVARIANT TimeoutAgree
